@@ -46,6 +46,7 @@ let parse_event (tok : string) : event =
 (* "BW,i,k:target:tag+k:target:tag/..." : block on call i while the peer delivers the batches *)
 type item = Ev of event | SendI of event * string | BW of nat * pmsg list list | BT of nat * int * tv list * pmsg list list | TT of nat * nat * pmsg list
 let parse_pmsg (t : string) : pmsg =
+  if t = "x" then PClose else
   match String.split_on_char ':' t with
   | [k; target; tag] ->
       let v = int_of_string (String.sub target 1 (String.length target - 1)) in
